@@ -198,3 +198,32 @@ def classesOf {α γ : Type} [LE α] [LT α] [DecidableLE α] [DecidableLT α]
   build zero sample ((cleanEdges edges).map rank)
 
 end SparkxVerif.Centrality
+
+/-! ### primitives used by the generated model (`Gen/Centrality.lean`, tie T) — appended, nothing above changed -/
+namespace SparkxVerif.Centrality
+
+/-- Python `range(a, b)` as a list of `int`s (empty when `b ≤ a`) -/
+def pyRange (a b : Int) : List Int := (List.range (b - a).toNat).map (fun (k : Nat) => a + (k : Int))
+
+section order
+variable {α : Type} [LE α] [LT α] [DecidableLE α] [DecidableLT α]
+
+/-- Python `x > b` for a stored minimum `b` (`x > inf` is false for every multiplicity) -/
+def Bnd.ltVal (b : Bnd α) (x : α) : Bool :=
+  match b with
+  | .inf => false
+  | .fin m => decide (m < x)
+
+/-- Python `x <= b` for a stored minimum `b` -/
+def Bnd.geVal (b : Bnd α) (x : α) : Bool :=
+  match b with
+  | .inf => true
+  | .fin m => decide (x ≤ m)
+
+end order
+
+/-- Python `int(x)` for a non-negative double below 2^64 (truncation); used by the driver only, the theorems
+keep the conversion abstract -/
+def floatToNat (x : Float) : Nat := x.toUInt64.toNat
+
+end SparkxVerif.Centrality
